@@ -60,6 +60,7 @@ func cmdCheck(args []string) int {
 	fs.BoolVar(&o.Verbose, "v", false, "verbose")
 	fs.BoolVar(&o.NoReplay, "no-replay", false, "do not run replays")
 	fs.BoolVar(&o.Dump, "dump", false, "debug: print every obligation with its status")
+	fs.BoolVar(&deadcodeProbe, "deadcode", false, "debug: report call sites after which no explored path is feasible")
 	fs.BoolVar(&o.WriteBaseline, "write-baseline", false, "record the obligations discharged by this run as the accepted baseline")
 	fs.Parse(args)
 	fmt.Sscanf(envOr("VERIF_SEED", "1"), "%d", &o.Seed)
@@ -368,6 +369,13 @@ func runProperty(o *Options, pc *PropertyConfig) int {
 				if ob.Result.Status != "unsat" {
 					allUnsat = false
 				}
+			}
+			if first.Probe {
+				if allUnsat {
+					fmt.Printf("DEADCODE %s: no explored path continues after this call (contradictory contracts, or genuinely unreachable)\n", name)
+				}
+				g.status = "ok"
+				continue
 			}
 			if first.Canary {
 				if allUnsat {
